@@ -94,18 +94,14 @@ class ParserState:
             while True:
                 matched = False
 
-                if whitespace_rule:
-                    matched = whitespace_rule.parse(self, children)
-                    if matched:
-                        some = True
-                        pairs.extend(children)
-                        # continue
-                    children.clear()
+                for rule in (whitespace_rule, comment_rule):
+                    if not rule:
+                        continue
 
-                if comment_rule:
+                    # Rewind a partially matched trivia rule.
                     self.checkpoint()
-                    matched = comment_rule.parse(self, children) or matched
-                    if matched:
+                    if rule.parse(self, children):
+                        matched = True
                         some = True
                         pairs.extend(children)
                         self.ok()
